@@ -27,9 +27,9 @@ import sym  # noqa: E402
 
 KERNELS = {
     "C01": ["k_index_of", "k_str_slice", "k_str_insert", "k_random", "k_unique_id", "k_str_index_length"],
-    "C02": ["k_lock_loading"],
-    "C03": ["k_load_module"],
-    "C04": ["k_find_file", "k_do_find_file", "k_fsloader_find"],
+    "C02": ["k_lock_loading", "k_lock_pairing"],
+    "C03": ["k_load_module", "k_lock_pairing"],
+    "C04": ["k_find_file", "k_do_find_file", "k_fsloader_find", "k_lock_pairing"],
     "C39": ["k_find_file", "k_do_find_file", "k_fsloader_find"],
     "C06": ["k_unique_id", "k_random"],
     "C11": ["k_plus_minus_units", "k_numeric_cmp", "k_unitset_simplify"],
@@ -38,7 +38,7 @@ KERNELS = {
     "C14": ["k_is_true", "k_and_or", "k_binop_short_circuit", "k_not"],
     "C16": ["k_set_variable"],
     "C17": ["k_for_bounds", "k_if_dispatch"],
-    "C36": ["k_comment_dispatch"],
+    "C36": ["k_comment_dispatch", "k_module_init"],
     "C21": ["k_error_and_drop"],
     "C26": ["k_str_slice", "k_str_insert", "k_str_index_length"],
     "C29": ["k_math_bounding", "k_math_percentage", "k_math_clamp", "k_find_extreme"],
@@ -404,6 +404,22 @@ STRUCTURAL_PROBES = {
 }
 
 
+STRUCTURAL_PROBES["k_lock_pairing"] = STRUCTURAL_PROBES["k_lock_loading"] + STRUCTURAL_PROBES["k_load_module"] + [
+    (({"a.scss": '@import "r.css";\n@import "r.css";\n', "r.css": "x{y:z}"}, "a.scss"), "x { y: z; } x { y: z; }"),
+    (({"a.scss": '@import "x";\n@import "y";\n', "_x.scss": '@import "r";\n', "_y.scss": '@import "r";\n', "r.css": "q{y:z}"}, "a.scss"), "q { y: z; } q { y: z; }"),
+    (({"a.scss": '@import "http://x/y";\n@import "//x/z";\n@import url(foo);\n@import "q.css";\n'}, "a.scss"), '@import "http://x/y"; @import "//x/z"; @import url(foo); @import "q.css";'),
+    (({"a.scss": '@import "nothere";\n'}, "a.scss"), "<error>"),
+    (({"a.scss": '@import "nothere" screen;\n'}, "a.scss"), '@import "nothere" screen;'),
+    (({"a.scss": '@use "m/lib";\n@use "m/mid";\n', "m/_lib.scss": ".lib { a: b }\n", "m/_mid.scss": '@use "lib";\n.mid { c: d }\n'}, "a.scss"), ".lib { a: b; } .mid { c: d; }"),
+    (({"a.scss": '@use "a/mid" as am;\n@use "b/mid" as bm;\n', "a/_mid.scss": '@use "lib";\n.a-mid { v: lib.$v }\n', "a/_lib.scss": "$v: a;\n",
+       "b/_mid.scss": '@use "lib";\n.b-mid { v: lib.$v }\n', "b/_lib.scss": "$v: b;\n"}, "a.scss"), ".a-mid { v: a; } .b-mid { v: b; }"),
+]
+STRUCTURAL_PROBES["k_module_init"] = [
+    (({"a.scss": '@use "lib";\n.main { c: d }\n', "_lib.scss": "/* hello */\n.lib { /* in rule */ a: b }\n"}, "[compressed]a.scss"), ".lib{a:b}.main{c:d}"),
+    (({"a.scss": '@use "lib";\n.main { c: d }\n', "_lib.scss": "/* hello */\n.lib { a: b }\n"}, "a.scss"), "/* hello */ .lib { a: b; } .main { c: d; }"),
+    (({"a.scss": '@forward "lib";\n.main { c: d }\n', "_lib.scss": "/* hello */\n.lib { a: b }\n"}, "[compressed]a.scss"), ".lib{a:b}.main{c:d}"),
+    (({"a.scss": '@use "lib";\n.main { c: lib.$v }\n', "_lib.scss": "$v: 1 + 1;\n"}, "[compressed]a.scss"), ".main{c:2}"),
+]
 STRUCTURAL_PROBES["k_do_find_file"] = STRUCTURAL_PROBES["k_find_file"]
 STRUCTURAL_PROBES["k_fsloader_find"] = STRUCTURAL_PROBES["k_find_file"]
 
@@ -423,7 +439,9 @@ def structural_probe(kernel, label=""):
     for src, want in probes:
         if isinstance(src, tuple):  # several files on disk
             files, entry = src
-            outs = [native.run_files(files, entry, prof) for prof in ("dev", "release")]
+            comp = entry.startswith("[compressed]")
+            entry = entry[len("[compressed]"):] if comp else entry
+            outs = [native.run_files(files, entry, prof, comp) for prof in ("dev", "release")]
             vals = [(" ".join(r["message"].split()) if r["outcome"] == "ok" else "<%s>" % r["outcome"]) for r in outs]
             if any(want not in v for v in vals):
                 diffs.append({"files": files, "entry": entry, "want": want, "got": vals})
